@@ -1,10 +1,281 @@
-(* C06/Props.v -- the property theorems, and nothing else. *)
+(* C06/Props.v -- the property theorems, and nothing else.  Each is closed by [exact] of a lemma of
+   Proofs*.v (or a two-line corollary) and followed by Print Assumptions.  Cells are of an arbitrary
+   type A (a scalar, a vector of n_pcs values, any trailing block), so every statement holds for every
+   number of trailing dimensions. *)
 From Coq Require Import ZArith List Lia Bool Arith.
-From PV Require Import Base.NpList C06.Model C06.Spec C06.Proofs.
+From PV Require Import Base.NpList C06.Model C06.Spec C06.Proofs C06.Proofs2 C06.Proofs3.
 Import ListNotations.
 Open Scope Z_scope.
 
+(* ---------- from_sparse ---------- *)
+
+(* For every data array, every column table of the same leading shape and every list of distinct
+   non-negative requested channels: the call succeeds, the result has one row per spike and one cell
+   per requested channel, and cell (s, j) is data[s][k] for the unique k with cols[s][k] = chans[j],
+   zero when the row does not name that channel. *)
+Theorem C06_from_sparse : forall (A : Type) (zero : A) (data : list (list A)) (cols : list (list Z)) (chans : list Z),
+  NoDup chans -> (forall c, In c chans -> 0 <= c) -> shape_ok data cols = true ->
+  exists out, from_sparse zero data cols chans = Ok out /\ FS_Spec zero data cols chans out.
+Proof.
+  intros A zero data cols chans H1 H2 H3. exists (dense zero data cols chans).
+  split; [now apply from_sparse_closed|now apply dense_FS_Spec].
+Qed.
+Print Assumptions C06_from_sparse.
+
+Example C06_from_sparse_ex :
+  from_sparse 0 [[10; 11; 12]; [20; 21; 22]] [[3; 5; 7]; [5; 1; 3]] [3; 1; 9] = Ok [[10; 0; 0]; [22; 21; 0]] /\
+  NoDup [3; 1; 9] /\ shape_ok [[10; 11; 12]; [20; 21; 22]] [[3; 5; 7]; [5; 1; 3]] = true.
+Proof. split; [vm_compute; reflexivity|]. split; [apply nodupb_NoDup|]; reflexivity. Qed.
+
+(* the same in closed form, also when a row names a channel twice: the entry written last wins *)
+Theorem C06_from_sparse_last_write : forall (A : Type) (zero : A) data cols chans,
+  NoDup chans -> (forall c, In c chans -> 0 <= c) -> shape_ok data cols = true ->
+  from_sparse zero data cols chans = Ok (dense zero data cols chans).
+Proof. exact (@from_sparse_closed). Qed.
+Print Assumptions C06_from_sparse_last_write.
+
+Example C06_from_sparse_last_write_ex :
+  from_sparse 0 [[10; 11; 12]] [[4; 4; 1]] [4; 1] = Ok [[11; 12]] /\ dense 0 [[10; 11; 12]] [[4; 4; 1]] [4; 1] = [[11; 12]].
+Proof. split; vm_compute; reflexivity. Qed.
+
+(* shape (n_spikes, n_requested): in particular an empty spike list gives an empty result and an
+   empty request gives rows without cells *)
+Theorem C06_from_sparse_shape : forall (A : Type) (zero : A) data cols chans out,
+  NoDup chans -> (forall c, In c chans -> 0 <= c) -> shape_ok data cols = true ->
+  from_sparse zero data cols chans = Ok out ->
+  length out = length data /\ forall orow, In orow out -> length orow = length chans.
+Proof.
+  intros A zero data cols chans out H1 H2 H3 H. rewrite (from_sparse_closed zero data cols chans H1 H2 H3) in H.
+  injection H as <-. destruct (dense_FS_Spec zero data cols chans H3) as (Hl & Hrows). split; [exact Hl|].
+  intros orow Hin. apply In_nth_error in Hin as (s & Hs).
+  assert (Hlt : (s < length data)%nat) by (rewrite <- Hl; apply nth_error_Some; congruence).
+  apply shape_ok_spec in H3 as (Hlc & _).
+  destruct (nth_error data s) as [drow|] eqn:Ed; [|apply nth_error_None in Ed; lia].
+  destruct (nth_error cols s) as [crow|] eqn:Ec; [|apply nth_error_None in Ec; lia].
+  destruct (Hrows s crow drow Ec Ed) as (orow' & Ho & Hlen & _). congruence.
+Qed.
+Print Assumptions C06_from_sparse_shape.
+
+Theorem C06_from_sparse_empty : forall (A : Type) (zero : A) chans,
+  NoDup chans -> (forall c, In c chans -> 0 <= c) -> from_sparse zero [] [] chans = Ok [].
+Proof. intros A zero chans H1 H2. now rewrite from_sparse_closed. Qed.
+Print Assumptions C06_from_sparse_empty.
+
+Example C06_from_sparse_empty_ex : from_sparse 0 [] [] [4; 2] = Ok [] /\ from_sparse 0 [[5; 6]] [[1; 2]] [] = Ok [[]].
+Proof. split; vm_compute; reflexivity. Qed.
+
+(* a requested channel that no row of the column table names gives a column of zeros *)
+Theorem C06_from_sparse_unknown : forall (A : Type) (zero : A) data cols chans out j ch,
+  NoDup chans -> (forall c, In c chans -> 0 <= c) -> shape_ok data cols = true ->
+  from_sparse zero data cols chans = Ok out -> nth_error chans j = Some ch ->
+  (forall crow, In crow cols -> ~ In ch crow) ->
+  forall s orow, nth_error out s = Some orow -> nth_error orow j = Some zero.
+Proof.
+  intros A zero data cols chans out j ch H1 H2 H3 H Hj Hun s orow Hs.
+  rewrite (from_sparse_closed zero data cols chans H1 H2 H3) in H. injection H as <-.
+  destruct (dense_FS_Spec zero data cols chans H3) as (Hl & Hrows).
+  assert (Hlt : (s < length data)%nat) by (rewrite <- Hl; apply nth_error_Some; congruence).
+  apply shape_ok_spec in H3 as (Hlc & _).
+  destruct (nth_error data s) as [drow|] eqn:Ed; [|apply nth_error_None in Ed; lia].
+  destruct (nth_error cols s) as [crow|] eqn:Ec; [|apply nth_error_None in Ec; lia].
+  destruct (Hrows s crow drow Ec Ed) as (orow' & Ho & _ & Hcells). rewrite Hs in Ho. injection Ho as <-.
+  destruct (Hcells j ch Hj) as (v & Hv & Hz & _). rewrite Hv. f_equal. apply Hz. apply Hun. eapply nth_error_In; eauto.
+Qed.
+Print Assumptions C06_from_sparse_unknown.
+
+Example C06_from_sparse_unknown_ex : from_sparse 0 [[10; 11]; [20; 21]] [[3; 5]; [5; 1]] [9; 5] = Ok [[0; 11]; [0; 20]].
+Proof. vm_compute; reflexivity. Qed.
+
+(* PERMUTATION EQUIVARIANCE (in the strong form "the column of a channel depends on nothing but the
+   channel"): request the same channel ch at position j of one list and at position j' of any other list
+   -- a permutation, a sub-list, a super-list -- and the two columns are equal, spike by spike. *)
+Theorem C06_from_sparse_perm : forall (A : Type) (zero : A) data cols chans chans',
+  NoDup chans -> (forall c, In c chans -> 0 <= c) -> NoDup chans' -> (forall c, In c chans' -> 0 <= c) ->
+  shape_ok data cols = true ->
+  exists out out', from_sparse zero data cols chans = Ok out /\ from_sparse zero data cols chans' = Ok out' /\
+    length out = length out' /\
+    forall s orow orow' j j' ch, nth_error out s = Some orow -> nth_error out' s = Some orow' ->
+      nth_error chans j = Some ch -> nth_error chans' j' = Some ch -> nth_error orow j = nth_error orow' j'.
+Proof.
+  intros A zero data cols chans chans' H1 H2 H1' H2' H3.
+  exists (dense zero data cols chans), (dense zero data cols chans').
+  split; [now apply from_sparse_closed|]. split; [now apply from_sparse_closed|].
+  pose proof H3 as Hsh. apply shape_ok_spec in Hsh as (Hlc & _).
+  split; [now rewrite !dense_length|].
+  intros s orow orow' j j' ch Ho Ho' Hj Hj'.
+  assert (Hlt : (s < length data)%nat) by (rewrite <- (dense_length zero data cols chans Hlc); apply nth_error_Some; congruence).
+  destruct (nth_error data s) as [drow|] eqn:Ed; [|apply nth_error_None in Ed; lia].
+  destruct (nth_error cols s) as [crow|] eqn:Ec; [|apply nth_error_None in Ec; lia].
+  rewrite (dense_nth zero data cols chans s drow crow Ed Ec) in Ho.
+  rewrite (dense_nth zero data cols chans' s drow crow Ed Ec) in Ho'.
+  injection Ho as <-. injection Ho' as <-.
+  now rewrite (dense_row_nth zero crow drow chans j ch Hj), (dense_row_nth zero crow drow chans' j' ch Hj').
+Qed.
+Print Assumptions C06_from_sparse_perm.
+
+Example C06_from_sparse_perm_ex :
+  from_sparse 0 [[10; 11; 12]; [20; 21; 22]] [[3; 5; 7]; [5; 1; 3]] [3; 1; 5] = Ok [[10; 0; 11]; [22; 21; 20]] /\
+  from_sparse 0 [[10; 11; 12]; [20; 21; 22]] [[3; 5; 7]; [5; 1; 3]] [5; 3; 1] = Ok [[11; 10; 0]; [20; 22; 21]].
+Proof. split; vm_compute; reflexivity. Qed.
+
+(* the documented rejections *)
 Theorem C06_from_sparse_dup_rejected : forall (A : Type) (zero : A) data cols chans,
-  nodupb chans = false -> from_sparse zero data cols chans = ErrDup.
-Proof. exact (@from_sparse_dup). Qed.
+  ~ NoDup chans -> from_sparse zero data cols chans = ErrDup.
+Proof.
+  intros A zero data cols chans H. apply from_sparse_dup. destruct (nodupb chans) eqn:E; [|reflexivity].
+  exfalso. apply H. now apply nodupb_NoDup.
+Qed.
 Print Assumptions C06_from_sparse_dup_rejected.
+
+Example C06_from_sparse_dup_ex : from_sparse 0 [[10; 11]] [[0; 1]] [1; 1] = ErrDup.
+Proof. vm_compute; reflexivity. Qed.
+
+(* the boolean checker run on the implementation's output implies the statement *)
+Theorem C06_checker_sound : forall (A : Type) (zero : A) (aeqb : A -> A -> bool),
+  (forall a b, aeqb a b = true -> a = b) -> forall data cols chans out,
+  shape_ok data cols = true -> fs_spec_b zero aeqb data cols chans out = true -> FS_Spec zero data cols chans out.
+Proof. exact (@fs_spec_b_sound). Qed.
+Print Assumptions C06_checker_sound.
+
+(* the lookup table of _index_of: members of a duplicate-free non-negative lookup list are replaced by
+   their positions *)
+Theorem C06_index_of : forall arr lookup,
+  NoDup lookup -> (forall x, In x lookup -> 0 <= x) -> (forall x, In x arr -> In x lookup) ->
+  exists out, index_of arr lookup = Some out /\ length out = length arr /\
+    forall i x, nth_error arr i = Some x -> exists q, nth_error out i = Some (Z.of_nat q) /\ nth_error lookup q = Some x.
+Proof.
+  intros arr lookup H1 H2 H3. exists (map (zpos lookup) arr). split; [now apply index_of_spec|].
+  split; [apply map_length|]. intros i x Hi. rewrite nth_error_map, Hi. cbn [option_map].
+  assert (Hx : In x lookup) by (apply H3; eapply nth_error_In; eauto).
+  destruct (find_pos_some lookup x Hx) as (q & Hq). exists q. unfold zpos. rewrite Hq. split; [reflexivity|].
+  now apply find_pos_nth.
+Qed.
+Print Assumptions C06_index_of.
+
+Example C06_index_of_ex : index_of [7; 2; 2; 5] [5; 2; 7] = Some [2; 1; 1; 0].
+Proof. vm_compute; reflexivity. Qed.
+
+(* ---------- get_features / get_template_features ---------- *)
+
+(* For every well-formed store (with or without a spike-id row table, with or without a per-template
+   column table), every list of distinct existing spike ids IN ANY ORDER and every list of distinct
+   non-negative channels: the call succeeds, row p of the result belongs to the p-th requested spike,
+   and for every requested spike the store holds, each cell is the stored value whose column index
+   names that channel for the spike's template, else zero. *)
+Theorem C06_get_features : forall (A : Type) (zero nanc : A) (st : @store A) n_loc stpl ids chans,
+  Wf st n_loc stpl ids -> NoDup chans -> (forall c, In c chans -> 0 <= c) ->
+  exists out, get_features zero nanc st n_loc stpl ids chans = Ok out /\
+              Dense_Spec zero st n_loc stpl ids chans out.
+Proof. exact (@get_dense_spec). Qed.
+Print Assumptions C06_get_features.
+
+Definition ex_store : @store Z := mkstore [[10; 11]; [20; 21]; [30; 31]] (Some [[0; 1]; [2; 3]]) (Some [4; 2; 7]).
+Example C06_get_features_ex :
+  Wf ex_store 2 [0; 0; 1; 1; 0; 1; 0; 1] [7; 3; 4] /\
+  get_features 0 99 ex_store 2 [0; 0; 1; 1; 0; 1; 0; 1] [7; 3; 4] [0; 1; 2; 3] =
+    Ok [[0; 0; 30; 31]; [0; 0; 99; 99]; [10; 11; 0; 0]].
+Proof.
+  split; [|vm_compute; reflexivity]. constructor; cbn [ex_store st_data st_rows st_cols].
+  - repeat constructor.
+  - apply nodupb_NoDup. reflexivity.
+  - intros x Hx. cbn [In] in Hx. unfold zlen. cbn [length]. lia.
+  - split; [apply nodupb_NoDup; reflexivity|]. split; [intros x Hx; cbn [In] in Hx; lia|reflexivity].
+  - split; [intros x Hx; cbn [In] in Hx; unfold zlen; cbn [length]; lia|repeat constructor].
+Qed.
+
+(* template features: the requested "channels" are all templates 0 .. n_templates-1 *)
+Theorem C06_template_features : forall (A : Type) (zero nanc : A) (st : @store A) n_loc stpl ids n_templates,
+  Wf st n_loc stpl ids ->
+  exists out, get_template_features zero nanc st n_loc stpl ids n_templates = Ok out /\
+              Dense_Spec zero st n_loc stpl ids (arange n_templates) out.
+Proof.
+  intros A zero nanc st n_loc stpl ids nt W. unfold get_template_features.
+  apply get_dense_spec; [exact W|apply arange_NoDup|apply arange_nonneg].
+Qed.
+Print Assumptions C06_template_features.
+
+Example C06_template_features_ex :
+  get_template_features 0 99 (mkstore [[10; 11]; [20; 21]] (Some [[0; 2]; [1; 2]; [2; 0]]) (Some [2; 1])) 2 [2; 2; 1] [1; 2] 3
+  = Ok [[21; 0; 20]; [0; 10; 11]].
+Proof. vm_compute; reflexivity. Qed.
+
+(* "independently of whether the store holds all spikes or only a listed subset": a store that lists a
+   subset of the spikes answers every request inside the subset exactly like the full store *)
+Theorem C06_subset_store_agrees : forall (A : Type) (zero nanc : A) (st st' : @store A) n_loc stpl ids chans r,
+  st_cols st' = st_cols st -> st_rows st = None -> st_rows st' = Some r ->
+  (forall q sp, nth_error r q = Some sp -> nth_error (st_data st') q = nth_error (st_data st) (Z.to_nat sp)) ->
+  Wf st n_loc stpl ids -> Wf st' n_loc stpl ids -> (forall sp, In sp ids -> In sp r) ->
+  get_features zero nanc st' n_loc stpl ids chans = get_features zero nanc st n_loc stpl ids chans.
+Proof. exact (@subset_store_agrees). Qed.
+Print Assumptions C06_subset_store_agrees.
+
+Example C06_subset_store_ex :
+  get_features 0 99 (mkstore [[30; 31]; [10; 11]] (Some [[0; 1]; [2; 3]]) (Some [2; 0])) 2 [0; 1; 1] [2; 0] [3; 0; 1] =
+  get_features 0 99 (mkstore [[10; 11]; [20; 21]; [30; 31]] (Some [[0; 1]; [2; 3]]) None) 2 [0; 1; 1] [2; 0] [3; 0; 1] /\
+  get_features 0 99 (mkstore [[30; 31]; [10; 11]] (Some [[0; 1]; [2; 3]]) (Some [2; 0])) 2 [0; 1; 1] [2; 0] [3; 0; 1] =
+  Ok [[31; 0; 0]; [0; 10; 11]].
+Proof. split; vm_compute; reflexivity. Qed.
+
+(* ---------- projection onto principal components ---------- *)
+
+(* _project_pcs is the contraction 'ijk,ljk->lki': features[l][k][i] = sum_j pcs[i][j][k] * x[l][j][k],
+   in any carrier (no algebraic law is used: the sum is taken in index order) *)
+Theorem C06_project : forall (R : Type) (radd rmul : R -> R -> R) (rzero : R) nsamp nc (pcs x feat : list (list (list R))),
+  project radd rmul rzero nsamp nc pcs x = Some feat ->
+  length feat = length x /\
+  forall l xl, nth_error x l = Some xl ->
+    exists fl, nth_error feat l = Some fl /\ length fl = nc /\
+      forall k, (k < nc)%nat ->
+        exists fk, nth_error fl k = Some fk /\ length fk = length pcs /\
+          forall i pi, nth_error pcs i = Some pi ->
+            nth_error fk i = Some (sum_prod radd rmul rzero nsamp (fun j => ent rzero pi j k) (fun j => ent rzero xl j k)).
+Proof. exact (@project_spec). Qed.
+Print Assumptions C06_project.
+
+Theorem C06_project_total : forall (R : Type) (radd rmul : R -> R -> R) (rzero : R) nsamp nc (pcs x : list (list (list R))),
+  forallb (is_shape nsamp nc) pcs = true -> forallb (is_shape nsamp nc) x = true ->
+  exists feat, project radd rmul rzero nsamp nc pcs x = Some feat.
+Proof. exact (@project_total). Qed.
+Print Assumptions C06_project_total.
+
+Example C06_project_ex :
+  project Z.add Z.mul 0 2 2 [[[1; 0]; [0; 1]]; [[0; 1]; [1; 0]]; [[1; 1]; [1; 1]]] [[[1; 2]; [3; 4]]] = Some [[[1; 3; 4]; [4; 2; 6]]].
+Proof. vm_compute; reflexivity. Qed.
+
+(* in Z: a component that is a signed unit vector e_j0 on channel k reads out sample j0 of that channel *)
+Theorem C06_project_unit : forall nsamp nc (pcs x feat : list (list (list Z))) l xl i pi k j0 s,
+  project Z.add Z.mul 0 nsamp nc pcs x = Some feat ->
+  nth_error x l = Some xl -> nth_error pcs i = Some pi -> (k < nc)%nat -> (j0 < nsamp)%nat ->
+  (forall j, (j < nsamp)%nat -> ent 0 pi j k = if (j =? j0)%nat then s else 0) ->
+  exists fl fk, nth_error feat l = Some fl /\ nth_error fl k = Some fk /\ nth_error fk i = Some (s * ent 0 xl j0 k).
+Proof. exact project_unit. Qed.
+Print Assumptions C06_project_unit.
+
+(* PARTIAL.  Full statement: "the features are the projections of each waveform onto the three leading
+   principal components of each channel".  Proved: compute_features is the contraction of the waveforms
+   with whatever three components the eigen-solver returned (pcs_of is universally quantified).  NOT
+   proved (no Gallina model of LAPACK's eigh): that those components are the three leading eigenvectors
+   of the regularised per-channel covariance; validated numerically by the correspondence run on
+   exactly diagonalisable inputs only (clauses 27, 28). *)
+Theorem C06_compute_features_partial : forall (R : Type) (radd rmul : R -> R -> R) (rzero : R)
+    (pcs_of : list (list (list R)) -> list (list (list R))) nsamp nc (w feat : list (list (list R))),
+  compute_features radd rmul rzero pcs_of nsamp nc w = Some feat ->
+  length (pcs_of w) = 3%nat /\ project radd rmul rzero nsamp nc (pcs_of w) w = Some feat.
+Proof. exact (@compute_features_spec). Qed.
+Print Assumptions C06_compute_features_partial.
+
+(* waveform route of get_features: the computed rows land at the positions of their spikes in the
+   request (any order), spikes without a stored waveform get the zero row *)
+Theorem C06_pca_assemble : forall (B : Type) (zrow : B) ids stored (compute : list Z -> option (list B)) feats,
+  NoDup ids -> (forall x, In x ids -> 0 <= x) ->
+  compute (intersect1d ids stored) = Some feats -> length feats = length (intersect1d ids stored) ->
+  exists out, pca_assemble zrow ids stored compute = Some out /\ length out = length ids /\
+    forall p sp, nth_error ids p = Some sp ->
+      (forall t, nth_error (intersect1d ids stored) t = Some sp -> nth_error out p = nth_error feats t) /\
+      (~ In sp stored -> nth_error out p = Some zrow).
+Proof. exact (@pca_assemble_spec). Qed.
+Print Assumptions C06_pca_assemble.
+
+Example C06_pca_assemble_ex :
+  pca_assemble 0 [9; 2; 5; 4] [2; 4; 9; 7] (fun ex => Some (map (fun s => 100 + s) ex)) = Some [109; 102; 0; 104].
+Proof. vm_compute; reflexivity. Qed.
